@@ -23,16 +23,24 @@ Theorem C13_decider_sound : forall i o, check_C13 i o = true -> C13_holds i o.
 Proof. exact check_C13_sound. Qed.
 Print Assumptions C13_decider_sound.
 
+(* ... and completeness: the decider accepts every output that satisfies the property, so
+   check_C13 i o = true <-> C13_holds i o *)
+Theorem C13_decider_complete : forall i o, C13_holds i o -> check_C13 i o = true.
+Proof. exact check_C13_complete. Qed.
+Print Assumptions C13_decider_complete.
+
 (* main theorem: the model satisfies the whole property on every dialect, for all requests, all stated
-   existing attributes and all (abstract) values -- outside the refuted class excluded by inclass_C13 =
-   autoinc_honoured (C13_autoinc_ignored_refuted): hence `_partial` *)
+   existing attributes and all (abstract) values -- for plain server defaults (Identity / Computed objects are in
+   the model and the correspondence; for them see C13_raises_iff_unsupported and the examples below) and outside the
+   refuted class excluded by autoinc_honoured (C13_autoinc_ignored_refuted): inclass_C13 = autoinc_honoured &&
+   plain_defaults, hence `_partial` *)
 Theorem C13_model_holds_partial : forall i, inclass_C13 i = true -> C13_holds i (tagged_C13 i).
 Proof. exact model_holds_partial. Qed.
 Print Assumptions C13_model_holds_partial.
 
 (* its clauses separately *)
 Theorem C13_effect : forall i ss st0,
-  inclass_C13 i = true ->                          (* = autoinc_honoured, see C13_autoinc_ignored_refuted *)
+  inclass_C13 i = true ->                          (* autoinc_honoured && plain_defaults *)
   model_C13 i = (ss, None) ->                      (* ran to completion, no exception *)
   matches (i_ex i) st0 ->                          (* every stated existing_* is the column's value *)
   stated_enough ss (i_req i) (i_ex i) st0 ->       (* see C13_stated_enough_exact / _minimal *)
@@ -41,13 +49,13 @@ Theorem C13_effect : forall i ss st0,
 Proof. exact effect_all. Qed.
 Print Assumptions C13_effect.
 
-Theorem C13_restated : forall i ss e, model_C13 i = (ss, e) ->
+Theorem C13_restated : forall i ss e, plain_defaults i = true -> model_C13 i = (ss, e) ->
   forall s v w, In s ss -> In v (assign s) -> req_val (i_req i) (attr_of v) = None ->
                 stated_val (i_ex i) (attr_of v) = Some w -> v = w.
 Proof. exact no_invention_all. Qed.
 Print Assumptions C13_restated.
 
-Theorem C13_raises_instead : forall i ss e, model_C13 i = (ss, Some e) ->
+Theorem C13_raises_instead : forall i ss e, plain_defaults i = true -> model_C13 i = (ss, Some e) ->
   unsupported i = true /\
   forall st0, matches (i_ex i) st0 -> stated_enough ss (i_req i) (i_ex i) st0 ->
     exists st', run ss st0 = Some st' /\
@@ -55,6 +63,7 @@ Theorem C13_raises_instead : forall i ss e, model_C13 i = (ss, Some e) ->
 Proof. exact raises_instead_all. Qed.
 Print Assumptions C13_raises_instead.
 
+(* for every kind of server default, including Computed / Identity objects on either side *)
 Theorem C13_raises_iff_unsupported : forall i, isSome (snd (model_C13 i)) = unsupported i.
 Proof. exact raises_iff_unsupported. Qed.
 Print Assumptions C13_raises_iff_unsupported.
@@ -68,7 +77,7 @@ Print Assumptions C13_toimpl_frame.
 (* FINDING: outside MySQL/MariaDB a requested autoincrement is never applied (no statement touches it, nothing
    is raised), so the full-strength statement is false there *)
 Theorem C13_autoinc_ignored : forall i st0 st',
-  is_mysql (i_d i) = false -> run (fst (model_C13 i)) st0 = Some st' -> c_autoinc st' = c_autoinc st0.
+  plain_defaults i = true -> is_mysql (i_d i) = false -> run (fst (model_C13 i)) st0 = Some st' -> c_autoinc st' = c_autoinc st0.
 Proof. exact autoinc_ignored. Qed.
 Print Assumptions C13_autoinc_ignored.
 
@@ -80,8 +89,8 @@ Proof. exact autoinc_refuted. Qed.
 Print Assumptions C13_autoinc_ignored_refuted.
 
 (* the hypothesis stated_enough, spelled out per dialect, exactly ... *)
-Theorem C13_stated_enough_exact : forall i st0,
-  stated_enough (fst (model_C13 i)) (i_req i) (i_ex i) st0 <-> existing_needed i st0.
+Theorem C13_stated_enough_exact : forall i st0, plain_defaults i = true ->
+  (stated_enough (fst (model_C13 i)) (i_req i) (i_ex i) st0 <-> existing_needed i st0).
 Proof. exact stated_enough_exact. Qed.
 Print Assumptions C13_stated_enough_exact.
 
@@ -112,12 +121,32 @@ Example C13_decider_nonvacuous :
   check_C13 nv_order ([(tS, SetComment 1%N (Some 31%N)); (tN, Rename 1%N 2%N)], None) = false.
 Proof. exact decider_nonvacuous. Qed.
 Example C13_toimpl_nonvacuous :
-  model_C13 (mkIn Doracle tN (mkReq (Some (mkTy 13 false (Some 51%N))) None TFalse None TFalse None None)
-                  (mkEx 1%N (Some (mkTy 12 false (Some 50%N))) None TFalse None None))
+  model_C13 (mkIn Doracle tN (mkReq (Some (mkTy 13 false (Some 51%N))) None TFalse None TFalse None None KPlain)
+                  (mkEx 1%N (Some (mkTy 12 false (Some 50%N))) None TFalse None None KPlain))
   = ([DropConstraint 50%N; SetType 1%N (mkTy 13 false (Some 51%N)) None; AddConstraint 1%N 51%N], None).
 Proof. reflexivity. Qed.
 (* the CHECK of the new type is added after the rename and names the NEW column name (fix 0b330f6) *)
 Example C13_check_after_rename_fixed :
-  model_C13 (mkIn Dpostgresql tN (mkReq (Some (mkTy 13 false (Some 51%N))) None TFalse (Some 2%N) TFalse None None) ex_nothing)
+  model_C13 (mkIn Dpostgresql tN (mkReq (Some (mkTy 13 false (Some 51%N))) None TFalse (Some 2%N) TFalse None None KPlain) ex_nothing)
   = ([SetType 1%N (mkTy 13 false (Some 51%N)) None; Rename 1%N 2%N; AddConstraint 2%N 51%N], None).
 Proof. reflexivity. Qed.
+
+(* FINDING 2 (PostgreSQL): a plain server_default requested while the stated existing default is an Identity: an empty
+   ALTER COLUMN, the request is not applied, nothing is raised *)
+Theorem C13_pg_plain_default_on_identity_refuted :
+  inclass_C13 (mkIn Dpostgresql tN req_plain_default ex_identity) = false /\
+  tagged_C13 (mkIn Dpostgresql tN req_plain_default ex_identity) = ([(tN, AlterIdentityEmpty 1%N)], None) /\
+  ~ C13_holds (mkIn Dpostgresql tN req_plain_default ex_identity) (tagged_C13 (mkIn Dpostgresql tN req_plain_default ex_identity)).
+Proof. exact pg_plain_default_on_identity_refuted. Qed.
+Print Assumptions C13_pg_plain_default_on_identity_refuted.
+
+(* Identity / Computed server defaults in the model *)
+Example C13_identity_examples :
+  model_C13 (mkIn Dpostgresql tN req_identity ex_identity) = ([AlterIdentity 1%N 71%N false], None) /\
+  model_C13 (mkIn Dpostgresql tN req_identity ex_nothing) = ([AlterIdentity 1%N 71%N true], None) /\
+  model_C13 (mkIn Doracle tN req_identity ex_identity) = ([AddIdentity 1%N 71%N], None) /\
+  model_C13 (mkIn Dmssql tN req_identity ex_identity) = ([], Some CompileError) /\
+  model_C13 (mkIn Dmysql tN (mkReq None None TFalse (Some 2%N) TFalse None None KPlain)
+                   (mkEx 1%N (Some T0) None (TSome 80%N) None None KComputed)) = ([], Some OtherErr) /\
+  check_C13 (mkIn Dpostgresql tN req_identity ex_identity) (tagged_C13 (mkIn Dpostgresql tN req_identity ex_identity)) = true.
+Proof. exact identity_examples. Qed.
